@@ -180,6 +180,7 @@ type Unit struct {
 	retReach []Term
 	retWhere []string
 	curLoopPre *State // state in which the most recently entered loop was entered (spec: atentry)
+	entryAlloc Term   // allocation counter at function entry
 }
 
 var unitSeq atomic.Int64
